@@ -301,8 +301,14 @@ func (c connectUnaryServerProtocol) extractProtocolResponseHeaders(statusCode in
 		endUnmarshaller = func(_ Codec, buf *bytes.Buffer, end *responseEnd) {
 			var wireErr connectWireError
 			if err := json.Unmarshal(buf.Bytes(), &wireErr); err != nil {
-				end.err = connect.NewError(connect.CodeInternal, err)
+				// Not a Connect error body: a bare HTTP failure (proxy, load
+				// balancer...). Its code follows from the HTTP status.
+				end.err = connect.NewError(httpStatusCodeToRPC(statusCode), fmt.Errorf("unexpected HTTP error: %d %s", statusCode, http.StatusText(statusCode)))
 				return
+			}
+			if wireErr.Code == 0 {
+				// An error without a (valid) code: infer it from the HTTP status.
+				wireErr.Code = httpStatusCodeToRPC(statusCode)
 			}
 			end.err = wireErr.toConnectError()
 		}
